@@ -996,6 +996,10 @@ def solve(objfun, x0, h=None, lh=None, prox_uh=None, argsf=(), argsh=(), argspro
         xl = -1e20 * np.ones((n,))
         xu = 1e20 * np.ones((n,))
 
+    # Rounding in the internal shift/scale arithmetic must never produce a point outside the bounds
+    xl_orig, xu_orig, objfun_orig = xl.copy(), xu.copy(), objfun
+    objfun = lambda x, *args: objfun_orig(np.minimum(np.maximum(x, xl_orig), xu_orig), *args)
+
     # Set parameters
     params = ParameterList(int(n), int(npt), int(maxfun), objfun_has_noise=objfun_has_noise)  # make sure int, not np.int
     if user_params is not None:
@@ -1171,7 +1175,7 @@ def solve(objfun, x0, h=None, lh=None, prox_uh=None, argsf=(), argsh=(), argspro
     if scaling_changes is not None and jacmin is not None:
         for i in range(n):
             jacmin[:, i] = jacmin[:, i] / scaling_changes[1][i]
-    results = OptimResults(remove_scaling(xmin, scaling_changes), rmin, objmin, jacmin, nf, nx, nruns, exit_flag, exit_msg, xmin_eval_num, jacmin_eval_nums)
+    results = OptimResults(np.minimum(np.maximum(remove_scaling(xmin, scaling_changes), xl_orig), xu_orig), rmin, objmin, jacmin, nf, nx, nruns, exit_flag, exit_msg, xmin_eval_num, jacmin_eval_nums)
     if params("logging.save_diagnostic_info"):
         df = diagnostic_info.to_dataframe(with_xk=params("logging.save_xk"), with_rk=params("logging.save_rk"))
         results.diagnostic_info = df
